@@ -75,7 +75,7 @@ RECORD_ATTRS = [
     ("pp8", "#pragma pack(push, 8)\n", "", "\n#pragma pack(pop)"),
 ]
 # member attributes applied to the LAST plain member of a record (suffix before ';')
-MEMBER_ATTRS = [("", ""), ("mal8", "__attribute__((aligned(8)))"), ("mal16", "__attribute__((aligned(16)))"), ("mpk", "__attribute__((packed))")]
+MEMBER_ATTRS = [("", ""), ("mal8", "__attribute__((aligned(8)))"), ("mal16", "__attribute__((aligned(16)))"), ("mal64", "__attribute__((aligned(64)))"), ("mpk", "__attribute__((packed))")]
 
 
 KW_BY_POS = [("type", "fn"), ("match", "impl"), ("mod", "use"), ("loop", "dyn")]  # Rust keywords that are plain C identifiers
